@@ -80,7 +80,9 @@ class Program:
             except SyntaxError as exc:  # the tree must at least compile
                 raise AnalysisError(f"cannot parse {path}: {exc}") from exc
             self.modules[mod.rel] = mod
+            mod._prog = self  # type: ignore[attr-defined]
             self._index(mod, mod.tree, None, "")
+        self._module_env: dict[str, dict] = {}
 
     # ------------------------------------------------------------------ indexing
     def _index(self, mod, node, cls, prefix):
@@ -184,6 +186,30 @@ class Program:
                 except NotConstant:
                     vals.pop(t.id, None)
         return {k: v for k, v in vals.items() if counts.get(k) == 1}
+
+    def module_env(self, rel: str) -> dict:
+        """Constants visible in module rel: its own and those it imports from sibling modules (folded; one copy per program)."""
+        if rel in self._module_env:
+            return self._module_env[rel]
+        import copy
+        env = {}
+        mod = self.modules.get(rel)
+        if mod is not None:
+            base = rel.rsplit("/", 1)[0] + "/" if "/" in rel else ""
+            for st in mod.tree.body:
+                if isinstance(st, ast.ImportFrom) and st.level >= 1:
+                    src_dir = base
+                    for _ in range(st.level - 1):
+                        src_dir = src_dir.rstrip("/").rsplit("/", 1)[0] + "/" if "/" in src_dir.rstrip("/") else ""
+                    cand = f"{src_dir}{(st.module or '').replace('.', '/')}.py"
+                    if cand in self.modules and cand != rel:
+                        consts = self.module_constants(cand)
+                        for a in st.names:
+                            if a.name in consts:
+                                env[a.asname or a.name] = copy.deepcopy(consts[a.name])
+            env.update(copy.deepcopy(self.module_constants(rel)))
+        self._module_env[rel] = env
+        return env
 
     def digest(self) -> str:
         h = hashlib.sha256()
